@@ -295,6 +295,12 @@ class SMCSampler(MCMCSampler):
         else:
             self.adaptive_min_step = False
 
+        if resumed and self.adaptive_min_step:
+            # Continue with the adapted minimum step of the interrupted run
+            resumed_min_step = getattr(self, "_resumed_min_step", None)
+            if resumed_min_step is not None:
+                min_step = resumed_min_step
+
         iterations = iterations or 0
         if checkpoint_callback is None and checkpoint_every is not None:
             checkpoint_callback = self.default_file_checkpoint_callback(
@@ -320,6 +326,7 @@ class SMCSampler(MCMCSampler):
             if not should_checkpoint:
                 return
             state = self.build_checkpoint_state(samples, iterations, beta)
+            state["meta"]["min_step"] = min_step
             checkpoint_callback(state)
 
         if run_smc_loop:
@@ -445,8 +452,10 @@ class SMCSampler(MCMCSampler):
         samples, state = super().restore_from_checkpoint(source)
         meta = state.get("meta", {}) if isinstance(state, dict) else {}
         beta = None
+        self._resumed_min_step = None
         if isinstance(meta, dict):
             beta = meta.get("beta", None)
+            self._resumed_min_step = meta.get("min_step", None)
         if beta is None:
             beta = state.get("beta", 0.0)
         iteration = state.get("iteration", 0)
